@@ -2,6 +2,7 @@ import BiotiteModel.Proofs.C05
 import BiotiteModel.Proofs.C05Ext
 import BiotiteModel.Proofs.C05Float
 import BiotiteModel.Proofs.C05Ser
+import BiotiteModel.Proofs.C05Cont
 import BiotiteModel.Gen.C05
 /-!
 # C05 — property theorems (BinaryCIF encodings are invertible)
@@ -489,6 +490,101 @@ theorem C05_serialized_encoding_roundtrip {V : Type} (c : String × List String)
 
 example : serializeEnc (V := Nat) Gen.C05.encodingKinds "RunLengthEncoding" [("src_size", 7), ("src_type", 3)]
     = some ⟨"RunLength", [("srcSize", 7), ("srcType", 3)]⟩ := by decide +kernel
+
+/-! ## Whole files: the lazily deserialising containers behave like a plain ordered map -/
+
+/-- Refinement, one step: whatever mixture of untouched (serialised) and touched (live) elements a file / block / category
+holds, `container[k]` returns what the plain map returns (including `KeyError` and `DeserializationError`), and
+`get` / `set` / `del` commute with the abstraction — in particular the caching done by an access is invisible. -/
+theorem C05_container_refines {S L : Type} (c : Codec S L) (m : Cont S L) :
+    (∀ k, (m.get c k).1 = Spec.get (m.abs c) k) ∧
+    (∀ op, (m.step c op).abs c = (m.abs c).step op) := by
+  refine ⟨fun k => ?_, fun op => ?_⟩
+  · simp only [Cont.get, Spec.get, abs_find]
+    cases h : Dict.find m k with
+    | none => rfl
+    | some e =>
+      cases e with
+      | live l => rfl
+      | lazy s => simp only [Option.map_some, Elem.view]; cases c.de s <;> rfl
+  · cases op with
+    | get k =>
+      simp only [Cont.step, Spec.step]
+      rcases get_state c m k with h | ⟨s, l, hs, hl, h⟩
+      · rw [h]
+      · rw [h, abs_upd]
+        exact upd_same _ _ _ (by simp [abs_find, hs, Elem.view, hl])
+    | set k l => exact abs_upd c m k (Elem.live l)
+    | del k =>
+      simp only [Cont.step, Spec.step, Cont.del]
+      cases h : Dict.find m k with
+      | none => exact (del_of_find_none _ _ (by simp [abs_find, h])).symm
+      | some e => exact abs_del c m k
+
+/-- Keys stay distinct in every reachable state. -/
+theorem C05_container_keys_nodup {S L : Type} (c : Codec S L) (m : Cont S L) (ops : List (Op L))
+    (h : m.keys.Nodup) : (ops.foldl (Cont.step c) m).keys.Nodup := by
+  induction ops generalizing m with
+  | nil => exact h
+  | cons op ops ih =>
+    apply ih
+    cases op with
+    | get k =>
+      simp only [Cont.step]
+      rcases get_state c m k with h' | ⟨s, l, _, _, h'⟩
+      · rw [h']; exact h
+      · rw [h']; exact keys_nodup_upd _ _ _ h
+    | set k l => exact keys_nodup_upd _ _ _ h
+    | del k =>
+      simp only [Cont.step, Cont.del]
+      cases Dict.find m k with
+      | none => exact h
+      | some e => exact keys_nodup_del _ _ h
+
+/-- Write then read: if every element type round-trips (`de (ser l) = some l` — the encoding-level theorems above, and this
+theorem one level down), a container in *any* state, touched or not, reads back as the same map; elements whose bytes
+were unreadable stay exactly as unreadable. -/
+theorem C05_container_write_read {S L : Type} (c : Codec S L) (hc : ∀ l, c.de (c.ser l) = some l)
+    (m : Cont S L) (h : m.keys.Nodup) :
+    (Cont.ofContent (m.serialize c) : Cont S L).abs c = m.abs c := by
+  have hk : ((m.serialize c).map (·.1)).Nodup := by simpa [Cont.serialize, Dict.keys, Function.comp_def] using h
+  rw [ofContent_nodup _ hk]
+  simp only [Cont.abs, Cont.serialize, List.map_map]
+  apply List.map_congr_left
+  intro p _
+  cases hp : p.2 with
+  | lazy s => simp [Elem.view, Elem.out, hp]
+  | live l => simp [Elem.view, Elem.out, hp, hc]
+
+/-- Every history: read a file, access / replace / delete elements in any order, write, read again — the result is the
+plain map after the same edits. -/
+theorem C05_container_history {S L : Type} (c : Codec S L) (hc : ∀ l, c.de (c.ser l) = some l)
+    (content : List (String × S)) (hk : (content.map (·.1)).Nodup) (ops : List (Op L)) :
+    (Cont.ofContent ((ops.foldl (Cont.step c) (Cont.ofContent content)).serialize c) : Cont S L).abs c
+      = ops.foldl Spec.step (content.map fun p => (p.1, c.de p.2)) := by
+  have h0 : (Cont.ofContent content : Cont S L).keys.Nodup := by
+    rw [ofContent_nodup _ hk]; simpa [Dict.keys, Function.comp_def] using hk
+  rw [C05_container_write_read c hc _ (C05_container_keys_nodup c _ ops h0)]
+  have hfold : ∀ (ops : List (Op L)) (m : Cont S L),
+      (ops.foldl (Cont.step c) m).abs c = ops.foldl Spec.step (m.abs c) := by
+    intro ops; induction ops with
+    | nil => intro m; rfl
+    | cons op ops ih => intro m; simp only [List.foldl_cons]; rw [ih, (C05_container_refines c m).2 op]
+  rw [hfold, ofContent_nodup _ hk]
+  simp [Cont.abs, Elem.view, Function.comp_def]
+
+/-- `BinaryCIFBlock` key handling: what is stored under `"_" + name` is listed as `name` again, for every name — also one
+that itself begins with underscores. -/
+theorem C05_block_key_roundtrip (k : String) : removePrefixUnderscore (blockKeyIn k) = k := by
+  simp [removePrefixUnderscore, blockKeyIn, String.toList_append]
+
+/-- non-vacuity: a two-element category, one element unreadable; touch, replace, delete, append -/
+example :
+    let c : Codec (Option Int) Int := ⟨some, id⟩
+    let m : Cont (Option Int) Int := Cont.ofContent [("a", some 1), ("b", none), ("c", some 3)]
+    ((m.get c "a").1 = .ok 1) ∧ ((m.get c "b").1 = .error .deserializationError) ∧ ((m.get c "z").1 = .error .keyError) ∧
+    (([Op.get "a", .set "c" 9, .del "a", .set "d" 4].foldl (Cont.step c) m).serialize c
+      = [("b", none), ("c", some 9), ("d", some 4)]) := by decide
 
 /-! ## Non-vacuity (float / string / byte part) -/
 
